@@ -254,8 +254,10 @@ def rule_magnitude(ctx: Ctx) -> None:
             continue
         sc = Scope(ctx, f)
         lossy = [x for _f, x in sc.walk() if (isinstance(x, ast.Call) and dotted(x.func) in ("round", "math.floor", "math.ceil", "math.trunc", "floor", "ceil")) or (isinstance(x, ast.BinOp) and isinstance(x.op, ast.FloorDiv))]
+        # timedelta(...).seconds is the seconds COMPONENT (0..86399) - the days are a separate field; the magnitude is total_seconds()
+        lossy += [x for _f, x in sc.walk() if isinstance(x, ast.Attribute) and x.attr in ("seconds", "microseconds") and isinstance(x.ctx, ast.Load) and "timedelta" in sc.text()]
         ctx.add("2-magnitude", f, lossy[0] if lossy else f.node, not lossy, f"{conv} is lossless (no rounding)" if not lossy else
-                f"`{norm(lossy[0])[:50]}` rounds inside {conv}: different quantities compare equal, so combine_max can return less than an operand", key=f"lossless {conv}")
+                f"`{norm(lossy[0])[:50]}` loses part of the magnitude inside {conv} (rounding / a component instead of the total): different quantities compare equal or a longer one compares smaller, so combine_max can return less than an operand", key=f"lossless {conv}")
         numeric = any(isinstance(x, ast.Call) and dotted(x.func) in ("float", "int", "sum") for _f, x in sc.walk())
         ctx.tri("2-magnitude", f, f.node, numeric, False, f"{conv} produces a number", "", f"{conv} has no float()/int() conversion this rule recognises", key=f"numeric {conv}")
 
@@ -373,6 +375,19 @@ def rule_rest(ctx: Ctx) -> None:  # noqa: C901, PLR0915
         ctx.tri("4-slurm", slurm, slurm.node, ok, not ok and not ssc.dynamic(), f"`{f}` is read when building the options", f"to_slurm_options never reads `{f}`: a set `{f}` is not mentioned",
                 f"fields are read by computed name and `{f}` is not named in the tables the function uses", key=f"emit {f}")
     ctx.floor("4-slurm", n, 8)
+    # a quantity, once collected, cannot be displaced by a user-supplied extra argument: when the options are gathered in a mapping
+    # keyed by flag name, merging `extra_args` OVER it replaces the entry of a quantity whose flag the user also names
+    quantity_maps = {t.id for a in ast.walk(slurm.node) if isinstance(a, (ast.Assign, ast.AnnAssign)) and isinstance(a.value, (ast.Dict, ast.DictComp))
+                     and any(isinstance(x, ast.Attribute) and isinstance(x.value, ast.Name) and x.value.id == "self" and x.attr in fields and x.attr != "extra_args" for x in ast.walk(a.value))
+                     for t in (a.targets if isinstance(a, ast.Assign) else [a.target]) if isinstance(t, ast.Name)}
+    for _ in range(2):  # filtered copies of it
+        quantity_maps |= {t.id for a in ast.walk(slurm.node) if isinstance(a, ast.Assign) and any(isinstance(x, ast.Name) and x.id in quantity_maps for x in ast.walk(a.value)) for t in a.targets if isinstance(t, ast.Name)}
+    over = [c for c in ast.walk(slurm.node) if isinstance(c, ast.Call) and isinstance(c.func, ast.Attribute) and c.func.attr == "update" and isinstance(c.func.value, ast.Name) and c.func.value.id in quantity_maps
+            and any("extra_args" in norm(a_) for a_ in c.args)]
+    over += [b for b in ast.walk(slurm.node) if isinstance(b, ast.BinOp) and isinstance(b.op, ast.BitOr) and isinstance(b.left, ast.Name) and b.left.id in quantity_maps and "extra_args" in norm(b.right)]
+    over += [d_ for d_ in ast.walk(slurm.node) if isinstance(d_, ast.Dict) and None in d_.keys and len(d_.values) >= 2 and isinstance(d_.values[0], ast.Name) and d_.values[0].id in quantity_maps and "extra_args" in norm(d_.values[-1])]
+    ctx.add("4-slurm", slurm, over[0] if over else slurm.node, not over, "no user-supplied extra argument can displace the option of a set quantity" if not over else
+            f"`{norm(over[0])[:60]}` merges extra_args over the options collected by flag name: an extra argument named like a built-in flag (e.g. gres=...) replaces the option of a quantity that is set - it is no longer mentioned", key="extra-args-do-not-displace")
     # ---- 5 validated
     post = P.func(f"{MOD}.Resources.__post_init__")
     sc = Scope(ctx, post, wide=True)
@@ -511,6 +526,11 @@ def rule_rest(ctx: Ctx) -> None:  # noqa: C901, PLR0915
     wrong = [n_ for ok_, n_ in verdicts if not ok_]
     ctx.tri("7-defaults", wd, wrong[0] if wrong else wd.node, bool(verdicts) and not wrong, bool(wrong), "in every merge of with_defaults the receiver's entries win over the defaults",
             f"`{norm(wrong[0])[:70] if wrong else ''}` lets the DEFAULTS override what the receiver has set", "merge form not recognised", key="order")
+    # ... and nothing the receiver has set is taken out again on the way to the constructor
+    drops = [c for c in ast.walk(wd.node) if (isinstance(c, ast.Call) and isinstance(c.func, ast.Attribute) and c.func.attr in ("pop", "popitem") and isinstance(c.func.value, ast.Name))
+             or (isinstance(c, ast.Delete) and any(isinstance(t, ast.Subscript) for t in c.targets))]
+    ctx.add("7-defaults", wd, drops[0] if drops else wd.node, not drops, "with_defaults removes nothing from the merged quantities" if not drops else
+            f"`{norm(drops[0])[:50]}` removes a quantity from the merged mapping: a value set on the receiver is silently dropped (the documented behaviour for a conflicting combination is the constructor's ValueError)", key="keeps-all")
     for q in (f"{MOD}.Resources.maybe_with_defaults", f"{MOD}._delayed_resources_with_defaults"):
         f = P.func(q)
         cs = [c for c in ast.walk(f.node) if isinstance(c, ast.Call) and isinstance(c.func, ast.Attribute) and c.func.attr == "with_defaults" and c.args]
